@@ -470,8 +470,14 @@ func c16CheckLocal(c *vr.Report) {
 		p := c16BuildPath(route, 5, -1)
 		verdicts := map[uint32]string{}
 		anyValid := false
+		hasLocalAS := false
 		for _, as := range []uint32{1, 2} {
 			rt := NewROATable(c16Logger)
+			// the table learns the speaker's AS from the server (StartBgp); here it is AS 1
+			if x, ok := any(rt).(interface{ SetLocalAS(uint32) }); ok {
+				x.SetLocalAS(1)
+				hasLocalAS = true
+			}
 			rt.Add(c16ImplROA(c16Roa{P: route, MaxLen: route.Len, AS: as}))
 			got, _, perr := c16ImplValidate(rt, p)
 			c.Eval()
@@ -498,6 +504,10 @@ func c16CheckLocal(c *vr.Report) {
 		}
 		c.NT(fmt.Sprintf("local/%d", ri))
 		c.Outcome("local-route:" + fmt.Sprint(verdicts[1], "/", verdicts[2]))
+		if hasLocalAS && (verdicts[1] != c16Valid || verdicts[2] != c16Invalid) {
+			c.Violationf("C16/validate/local-route-not-judged-by-local-as", c16VCase{Kind: "local", Route: ri},
+				"locally originated route %s, local AS 1: exact-prefix ROA with AS 1 gives %s (want valid), with AS 2 gives %s (want invalid)", c16RoutePrefixes[ri], verdicts[1], verdicts[2])
+		}
 		if !anyValid {
 			c.Violationf("C16/validate/local-route-origin-as-zero", c16VCase{Kind: "local", Route: ri},
 				"locally originated route %s (nil source, empty AS_PATH): exact-prefix ROA with AS 1 gives %s, with AS 2 gives %s - no ROA can validate it; "+
